@@ -7,7 +7,7 @@
 From Coq Require Import ZArith QArith List Bool Lia.
 From EosV Require Import lib.AList gen.T_eos model.World model.Status model.Calc model.Engine model.Ops
      model.Wf proofs.AList_p proofs.Rack_p proofs.Frame_p proofs.Containers_p proofs.Status_p proofs.Owner_p
-     proofs.Cinv_p proofs.Runs_p proofs.RunsC_p proofs.RunsK_p.
+     proofs.Cinv_p proofs.Runs_p proofs.Link_p proofs.RunsC_p proofs.RunsK_p.
 Import ListNotations.
 
 Opaque add_item remove_item load unload.
@@ -253,55 +253,6 @@ Proof.
   split; [unfold direct in *; assert (Ec : i_cls jit = i_cls jit') by congruence; now rewrite Ec|split; congruence].
 Qed.
 
-(* ... nor fits, fleets, solar systems, sources *)
-Lemma S_lift_fail (s : st) e : structure (fst (lift s (fun w => fail w e))) = structure (fst s).
-Proof. unfold lift. cbn [fst]. apply S_fail. Qed.
-Lemma state_set_op_S s i new : structure (fst (fst (state_set_op s i new))) = structure (fst s).
-Proof.
-  unfold state_set_op. destruct (get_item (fst s) i) as [it|] eqn:Hi; [|apply S_lift_fail].
-  destruct (i_state it =? new)%Z; [reflexivity|].
-  set (s1 := lift s _).
-  assert (K1 : structure (fst s1) = structure (fst s)) by (unfold s1, lift; cbn [fst]; apply S_put_item).
-  destruct (item_fit (fst s1) i) as [f|]; cbn [fst]; [|exact K1].
-  rewrite <- K1. apply S_with_msgs.
-  intros w. pose proof (S_state_update_msgs w i (i_state it) new) as F1.
-  destruct (state_update_msgs w i (i_state it) new) as [w1 m1]. cbn [fst] in F1.
-  destruct (FC_state_fold (i_state it) new (state_desc (length (child_items it false) + S (length (w_items w1))) w1 (child_items it false)) w1 m1) as (_ & F2).
-  congruence.
-Qed.
-Lemma target_set_op_S s i new : structure (fst (fst (target_set_op s i new))) = structure (fst s).
-Proof.
-  unfold target_set_op. destruct (get_item (fst s) i) as [it|] eqn:Hi; [|apply S_lift_fail].
-  destruct (onat_eqb (i_target it) new); [reflexivity|].
-  destruct (item_fit (fst s) i) as [f|]; cbn [fst].
-  - match goal with |- context[match ?X with Some _ => _ | None => _ end] =>
-      match X with fold_right _ _ _ => destruct X as [pe|] end end; [|apply S_lift_fail].
-    cbn [fst].
-    set (s1 := match i_target it with Some o => emit_always s f _ | None => s end).
-    assert (E1 : fst s1 = fst s) by (subst s1; destruct (i_target it); reflexivity).
-    set (s2 := lift s1 (fun w => upd_item w i (fun it0 => it_set_target it0 new))).
-    assert (K2 : structure (fst s2) = structure (fst s)).
-    { unfold s2, lift. cbn [fst]. rewrite E1. apply S_upd_item. }
-    destruct new; exact K2.
-  - apply S_put_item.
-Qed.
-Lemma mode_set_op_S s i e m : structure (fst (fst (mode_set_op s i e m))) = structure (fst s).
-Proof.
-  unfold mode_set_op. destruct (get_item (fst s) i) as [it|] eqn:Hi; [|apply S_lift_fail].
-  set (s1 := lift s _).
-  assert (K1 : structure (fst s1) = structure (fst s)) by (unfold s1, lift; cbn [fst]; apply S_put_item).
-  destruct (item_fit (fst s1) i) as [f|]; cbn [fst]; [|exact K1].
-  rewrite <- K1. apply S_with_msgs. intros w. apply S_effects_update.
-Qed.
-Lemma level_set_op_S s i l : structure (fst (fst (level_set_op s i l))) = structure (fst s).
-Proof.
-  unfold level_set_op. destruct (get_item (fst s) i) as [it|] eqn:Hi; [|apply S_lift_fail].
-  destruct (i_level it =? l)%Z; [reflexivity|].
-  set (s1 := lift s _).
-  assert (K1 : structure (fst s1) = structure (fst s)) by (unfold s1, lift; cbn [fst]; apply S_put_item).
-  destruct (item_fit (fst s1) i); exact K1.
-Qed.
-
 (* a new item lists nothing and is listed by nobody *)
 Lemma CP_new_item w a c tid st lvl :
   J w -> CP w -> get_item w a = None -> CP (put_item w a (new_item c tid st lvl)).
@@ -355,25 +306,19 @@ Definition op_ok3 (w : world) (o : op) : Prop :=
   | ONewItem _ c tid _ _ => childcls c -> NAtid w tid
   | ONewSolsys x => get_ss w x = None
   | OCharge m _ => forall mit, get_item w m = Some mit -> direct mit
-  | OSource x new =>
-    (forall y, get_ss w x = Some y -> onat_eqb (ss_source y) new = false -> LS (fst (src_mid (w, []) x y new))) /\
-    forall y, get_ss w x = Some y -> new <> None ->
-      let m := fst (src_mid (w, []) x y new) in
-      NoDup (flat_map (fit_list m) (ss_fit_list m x)) /\
-      forall j, In j (flat_map (fit_list m) (ss_fit_list m x)) -> dir_unloaded m j
   | _ => True
   end.
 
-Definition KINV (w : world) : Prop := CI w /\ RT [] w /\ KK w /\ FLATs w /\ CP w /\ LS w.
+Definition KINV (w : world) : Prop := CI w /\ RT [] w /\ KK w /\ FLATs w /\ CP w /\ LS w /\ SSI w.
 Lemma KINV_INV w : KINV w -> INV w. Proof. intros (C & R & _). now split. Qed.
-Lemma KINV_KJ w : KINV w -> KJ w. Proof. intros (C & R & K & Fl & Cp & Ls). split; [split; [exact R|apply C]|split; [exact K|split; [exact Fl|now split]]]. Qed.
+Lemma KINV_KJ w : KINV w -> KJ w. Proof. intros (C & R & K & Fl & Cp & Ls & _). split; [split; [exact R|apply C]|split; [exact K|split; [exact Fl|now split]]]. Qed.
 
 Theorem md_op_KK w o :
   KINV w -> op_ok2 w o -> op_ok3 w o -> w_err (fst (fst (md_op w o))) = None ->
   KK (fst (fst (md_op w o))) /\ FLATs (fst (fst (md_op w o))) /\ CP (fst (fst (md_op w o))) /\ LS (fst (fst (md_op w o))).
 Proof.
   intros I (Hok & Hsrc) H3. pose proof (KINV_KJ w I) as KJw. pose proof KJw as (Rw & Kw & Flw & Cpw & Lsw).
-  destruct I as (C & RTw & _ & _). pose proof (CI_LD w C) as Ldw.
+  destruct I as (C & RTw & _ & _ & _ & _ & Iw). pose proof (CI_LD w C) as Ldw.
   assert (KJ2 : forall w', KJ w' -> KK w' /\ FLATs w' /\ CP w' /\ LS w') by (intros w' (_ & H); exact H).
   assert (KS : forall w', KK w' /\ w_srcs w' = w_srcs w -> FC w w' -> LC w w' -> structure w' = structure w ->
                           KK w' /\ FLATs w' /\ CP w' /\ LS w').
@@ -434,7 +379,7 @@ Proof.
   - intros He. apply KJ2. now apply (solsys_add_op_KJ (w, [])).
   - intros He. apply KJ2. now apply (solsys_remove_op_KJ (w, [])).
   - intros He. apply KJ2. now apply (solsys_clear_op_KJ (w, [])).
-  - intros He. destruct H3 as (H3a & H3b). apply KJ2. now apply (source_set_op_KJ (w, [])).
+  - intros He. apply KJ2. now apply (source_set_op_KJ (w, [])).
   - intros _. split; [exact Kw|split; [exact Flw|split; [exact Cpw|exact Lsw]]].
   - intros _. split; [exact Kw|split; [exact Flw|split; [exact Cpw|exact Lsw]]].
   - intros _. split; [exact Kw|split; [exact Flw|split; [exact Cpw|exact Lsw]]].
@@ -443,12 +388,13 @@ Qed.
 
 Lemma KINV_clear_err w : KINV w -> KINV (clear_err w).
 Proof.
-  intros (C & R & K & Fl & Cp & Ls). split; [now apply CI_clear_err|split; [|split; [|split; [|split]]]].
+  intros (C & R & K & Fl & Cp & Ls & Ss). split; [now apply CI_clear_err|split; [|split; [|split; [|split; [|split]]]]].
   - eapply RT_same_is; [|exact R]. repeat split.
   - eapply KK_same_is; [|exact K]. repeat split.
   - now apply (FLATs_srcs w).
   - apply (CP_same_l w); [now apply same_l_items|exact Cp].
   - apply (LS_same_isf w); [|exact Ls]. split; [repeat split|intros f; reflexivity].
+  - apply (SSI_same_link w); [split; reflexivity|exact Ss].
 Qed.
 
 (* a history is clean when every call respects the caller obligations (those of proofs/Runs_p.v and
@@ -470,8 +416,10 @@ Proof.
   - intros Hok H3. pose proof (md_op_CI _ o (proj1 I) (proj1 Hok)) as C'.
     pose proof (md_op_RT _ o (KINV_INV _ I) Hok) as R'.
     pose proof (md_op_KK _ o I Hok H3) as K'.
+    assert (S' : w_err (fst (fst (md_op (clear_err (s_w x)) o))) = None -> SSI (fst (fst (md_op (clear_err (s_w x)) o)))).
+    { apply md_op_SSI; [apply I|]. destruct o; try exact Logic.I; [apply Hok|exact H3]. }
     destruct (md_op (clear_err (s_w x)) o) as [[w' evs] r]. cbn [fst s_w] in *. intros He.
-    destruct (K' He) as (K1 & K2 & K3 & K4). split; [exact C'|split; [now apply R'|split; [exact K1|split; [exact K2|now split]]]].
+    destruct (K' He) as (K1 & K2 & K3 & K4). split; [exact C'|split; [now apply R'|split; [exact K1|split; [exact K2|split; [exact K3|split; [exact K4|now apply S']]]]]].
 Qed.
 
 Theorem run_KINV ops : forall x, KINV (s_w x) -> ops_clean3 x ops -> KINV (s_w (run x ops)).
@@ -482,13 +430,14 @@ Qed.
 
 Lemma KINV_empty : KINV empty_world.
 Proof.
-  split; [apply CI_empty|split; [|split; [|split; [|split]]]].
+  split; [apply CI_empty|split; [|split; [|split; [|split; [|split]]]]].
   - intros j it _ H. discriminate.
   - constructor; intros. all: match goal with H : get_item empty_world _ = Some _ |- _ => discriminate H | _ => idtac end.
     intros j it _ H. discriminate.
   - intros tid s u t H. discriminate.
   - split; [|split]; intros; match goal with H : get_item empty_world _ = Some _ |- _ => discriminate H end.
   - intros j jit src H. discriminate H.
+  - apply SSI_empty.
 Qed.
 
 (* from the empty system, after any clean history: a charge or an autocharge runs
@@ -603,10 +552,6 @@ Proof.
   - intros H [->| ->]; now apply NAtidb_ok.
   - intros H. destruct (get_ss w s); [discriminate|reflexivity].
   - intros H mit G. rewrite G in H. now apply directb_ok.
-  - intros H. split.
-    + intros y Gy Hne. rewrite Gy in H. apply andb_true_iff in H as (H1 & _). rewrite Hne in H1. now apply LSb_ok.
-    + intros y Gy Hn. rewrite Gy in H. apply andb_true_iff in H as (_ & H2).
-      destruct src as [sid|]; [|congruence]. now apply list_okb_ok.
 Qed.
 
 Fixpoint ops_clean3b (x : sys) (ops : list op) : bool :=
@@ -674,6 +619,17 @@ Theorem loaded_from_current_source pen ops :
   forall j jit src, get_item w j = Some jit -> direct jit -> i_loaded jit = Some src ->
     exists f, fit_of_place (i_cont jit) = Some f /\ fit_source_id w f = Some src.
 Proof.
-  intros H w. pose proof (run_KINV ops (init_sys pen) KINV_empty (ops_clean3b_ok ops _ H)) as (_ & _ & _ & _ & _ & L).
+  intros H w. pose proof (run_KINV ops (init_sys pen) KINV_empty (ops_clean3b_ok ops _ H)) as (_ & _ & _ & _ & _ & L & _).
   exact L.
+Qed.
+
+(* the two sides of "fit f is in solar system x" agree, and no solar system lists a fit twice -- after every
+   history without internal error in which new fits and new solar systems get unused ids *)
+Theorem solar_system_links_consistent pen ops :
+  ops_clean3b (init_sys pen) ops = true ->
+  let w := s_w (run (init_sys pen) ops) in
+  (forall f x, fit_solsys w f = Some x <-> In f (ss_fit_list w x)) /\ (forall x, NoDup (ss_fit_list w x)).
+Proof.
+  intros H w. pose proof (run_KINV ops (init_sys pen) KINV_empty (ops_clean3b_ok ops _ H)) as (_ & _ & _ & _ & _ & _ & S).
+  exact S.
 Qed.
